@@ -16,7 +16,7 @@
 import ast
 
 PURE_BUILTINS = {'range', 'len', 'min', 'max', 'iter', 'next', 'int', 'abs', 'bool', 'ord', 'isinstance', 'reversed'}
-ARM_CALLS = {'range', 'len', 'min', 'max', 'int', 'abs'}
+ARM_CALLS = {'range', 'len', 'min', 'max', 'int', 'abs', 'enumerate', 'zip', 'reversed'}
 
 
 def _rt(name):
@@ -54,7 +54,8 @@ def mergeable(stmts):
                     return False
             continue
         if isinstance(s, ast.For):
-            if s.orelse or not isinstance(s.target, ast.Name) or not mergeable(s.body):
+            tgt_ok = isinstance(s.target, ast.Name) or (isinstance(s.target, ast.Tuple) and all(isinstance(e, ast.Name) for e in s.target.elts))
+            if s.orelse or not tgt_ok or not mergeable(s.body):
                 return False
             for n in ast.walk(s.iter):
                 if isinstance(n, ast.Call) and not (isinstance(n.func, ast.Name) and n.func.id in ARM_CALLS):
@@ -287,6 +288,30 @@ class Transformer(ast.NodeTransformer):
         return out
 
 
+def _own(stmts, kind):
+    """Break / Continue nodes that belong to the loop whose body `stmts` is (not to nested loops); None if a nested loop's
+    else clause holds one (belongs to the outer loop in an unusual way: not handled)"""
+    out = []
+
+    def walk(n):
+        if isinstance(n, kind):
+            out.append(n)
+            return True
+        if isinstance(n, (ast.For, ast.While, ast.AsyncFor)):
+            for s in n.orelse:
+                for m in ast.walk(s):
+                    if isinstance(m, (ast.Break, ast.Continue)):
+                        return False
+            return True
+        if isinstance(n, (ast.FunctionDef, ast.AsyncFunctionDef, ast.ClassDef, ast.Lambda)):
+            return True
+        return all(walk(c) for c in ast.iter_child_nodes(n))
+    for s in stmts:
+        if not walk(s):
+            return None
+    return out
+
+
 class BreakDesugar(ast.NodeTransformer):
     """(0) pre-pass: `for T in seq: ... if c: ...; break ... else: E` over a plain sequence becomes a loop without `break`:
 
@@ -313,7 +338,7 @@ class BreakDesugar(ast.NodeTransformer):
 
     @staticmethod
     def _has_break(stmts):
-        return any(isinstance(n, ast.Break) for s in stmts for n in ast.walk(s))
+        return bool(_own(stmts, ast.Break))
 
     def _qualifies(self, node):
         if not self.fn or not self._has_break(node.body):
@@ -325,8 +350,10 @@ class BreakDesugar(ast.NodeTransformer):
             names = {e.id for e in tg.elts}
         else:
             return False
-        bad = (ast.For, ast.While, ast.Try, ast.With, ast.Continue, ast.Return, ast.Yield, ast.YieldFrom, ast.Await, ast.FunctionDef,
-               ast.ClassDef, ast.AsyncFor, ast.AsyncWith, ast.Global, ast.Nonlocal, ast.Delete, ast.Match if hasattr(ast, 'Match') else ast.For)
+        if _own(node.body, ast.Break) is None or _own(node.body, ast.Continue) is None or _own(node.body, ast.Continue):
+            return False
+        bad = (ast.While, ast.Try, ast.With, ast.Return, ast.Yield, ast.YieldFrom, ast.Await, ast.FunctionDef,
+               ast.ClassDef, ast.AsyncFor, ast.AsyncWith, ast.Global, ast.Nonlocal, ast.Delete)
         for s in node.body + node.orelse:
             for n in ast.walk(s):
                 if isinstance(n, bad):
@@ -340,10 +367,10 @@ class BreakDesugar(ast.NodeTransformer):
                     if not ok(s.body) or not ok(s.orelse):
                         return False
                     continue
-                if any(isinstance(n, ast.Break) for n in ast.walk(s)):
+                if self._has_break([s]):
                     return False
             return True
-        if not ok(node.body) or self._has_break(node.orelse):
+        if not ok(node.body) or any(isinstance(n, ast.Break) for s in node.orelse for n in ast.walk(s)):
             return False
         if not isinstance(node.iter, (ast.Name, ast.Attribute, ast.Subscript, ast.Constant, ast.Tuple, ast.List, ast.Call)):
             return False
@@ -354,8 +381,54 @@ class BreakDesugar(ast.NodeTransformer):
                 return False
         return True
 
+    def _desugar_continue(self, node):
+        """`continue` in `if` arms of the loop body -> a per-iteration flag; the statements after the `if` are guarded by
+        `not flag` (exact for every iterable: only the rest of the body is skipped)"""
+        def has_c(stmts):
+            return bool(_own(stmts, ast.Continue))
+        if _own(node.body, ast.Continue) is None or not has_c(node.body):
+            return
+
+        def ok(stmts):
+            for s in stmts:
+                if isinstance(s, ast.Continue):
+                    continue
+                if isinstance(s, ast.If):
+                    if not ok(s.body) or not ok(s.orelse):
+                        return False
+                    continue
+                if has_c([s]):
+                    return False          # a continue inside try / with / ...
+            return True
+        if not ok(node.body):
+            return
+        self.n += 1
+        self.count += 1
+        c = f'__sx_cont{self.n}'
+
+        def conv(stmts):
+            out = []
+            for k, s in enumerate(stmts):
+                if isinstance(s, ast.Continue):
+                    out.append(ast.Assign([ast.Name(c, ast.Store())], ast.Constant(True)))
+                    return out
+                if isinstance(s, ast.If) and has_c([s]):
+                    out.append(ast.If(s.test, conv(s.body) or [ast.Pass()], conv(s.orelse)))
+                    rest = conv(stmts[k + 1:])
+                    if rest:
+                        out.append(ast.If(ast.Call(_rt('not_'), [ast.Name(c, ast.Load())], []), rest, []))
+                    return out
+                out.append(s)
+            return out
+        node.body = [ast.Assign([ast.Name(c, ast.Store())], ast.Constant(False))] + conv(node.body)
+        for s in node.body:
+            for n in ast.walk(s):
+                if not hasattr(n, 'lineno'):
+                    ast.copy_location(n, node)
+
     def visit_For(self, node):
         self.generic_visit(node)
+        self._desugar_continue(node)
         if not self._qualifies(node):
             return node
         import copy
